@@ -45,12 +45,15 @@ def plan(tier, seed):
             shards.append((name, "N", "finite-only", tier))
             shards.append((name, "S0", "finite-only", tier))
         shards.append((name, r["classes"][0], "long", tier))
+        if r["symmetric"]:
+            shards.append((name, "P", "mixed", tier))
     return shards
 
 
 def warm():
-    from mc.warm import warm_metrics
+    from mc.warm import warm_metrics, warm_dtypes
     warm_metrics()
+    warm_dtypes()
 
 
 def fill(fn, vs):
@@ -68,6 +71,8 @@ def fill(fn, vs):
             try:
                 if fresh:
                     M[i, j] = fn(np.array(vs[i], dtype=float), np.array(vs[j], dtype=float))
+                elif i == j and i % 3 == 0:
+                    M[i, j] = fn(bx, bx)        # the very same object for both parameters
                 else:
                     by[:] = vs[j]
                     M[i, j] = fn(bx, by)
@@ -168,6 +173,39 @@ def run(shard, seed):
     name, cl, mode, tier = shard
     res = Result()
     fn = D.DISTANCES[name]
+    if mode == "mixed":
+        # symmetry when one argument is an integer array and the other a float array
+        ints = [(3, 1, 7, 2), (1, 5, 2, 2), (2, 2), (9,), (4, 1)]
+        flts = [(2.6, 0.9, 6.5, 2.75), (3.5, 1.25, 7.9, 1.1), (2.5, 1.75), (8.4,), (0.3, 1.1)]
+        for xi in ints:
+            for yf in flts:
+                if len(xi) != len(yf):
+                    continue
+                for dt in (np.int64, np.int32):
+                    a = np.array(xi, dtype=dt)
+                    b = np.array(yf, dtype=float)
+                    try:
+                        ab, ba = float(fn(a.copy(), b.copy())), float(fn(b.copy(), a.copy()))
+                    except Exception as ex:
+                        ab, ba = float("nan"), float("nan")
+                    res.transitions += 2
+                    res.nontrivial += 1
+                    if not (abs(ab - ba) <= 1e-9 * max(1.0, abs(ab))) and not (ab != ab and ba != ba):
+                        v = make_violation(name, cl, [xi, yf], "symmetric", 0, 1, None,
+                                           "d(int array, float array) = %r but d(float array, int array) = %r" % (ab, ba))
+                        v["program"]["mixed"] = str(np.dtype(dt))
+                        res.violations.append(v)
+                        break
+                if res.violations:
+                    break
+            if res.violations:
+                break
+        res.outcome((name, "mixed"))
+        res.sample({"metric": name, "mode": "mixed", "x_int": list(ints[0]), "y_float": list(flts[0])}, 1)
+        res.evaluations = res.transitions
+        res.states = res.transitions
+        res.traces = res.transitions
+        return res
     if mode == "long":
         # finiteness and symmetry must not depend on the vector length or the feature scale
         for (L, sc), vs in long_vectors(cl, seed, tier).items():
@@ -214,6 +252,14 @@ def replay(case):
     import opfython.math.distance as D
     p = case["program"]
     name, cl, axiom = p["metric"], p["class"], p["axiom"]
+    if p.get("mixed"):
+        a = np.array(p["x"], dtype=np.dtype(p["mixed"]))
+        b = np.array(p["y"], dtype=float)
+        ab, ba = float(D.DISTANCES[name](a.copy(), b.copy())), float(D.DISTANCES[name](b.copy(), a.copy()))
+        if not (abs(ab - ba) <= 1e-9 * max(1.0, abs(ab))):
+            return make_violation(name, cl, [p["x"], p["y"]], "symmetric", 0, 1, None,
+                                  "d(int array, float array) = %r but d(float array, int array) = %r" % (ab, ba))
+        return None
     if isinstance(p["x"], dict):
         lv = long_vectors(cl, p.get("seed", 0), "thorough")[(p["x"]["L"], p["x"]["scale"])]
         vs = [lv[p["x"]["i"]], lv[p["y"]["i"]]]
